@@ -202,6 +202,20 @@ CHECKS = {
     design="6/C14", technique="TLA+ spec (NrpsModules.tla) + TLC model checking (generator, satisfiability, negative controls) + TLC trace validation of real calls",
     note=TRUSTED + "Domain classes are taken from the code's classify(); exhaustive only up to the stated lengths/alphabets; "
          "generate_domains (needs hmmscan), monomer naming and the secmet aSModule GenBank round trip are outside."),
+ "C19": dict(
+    text=("Layout.tla states the region-overview layout data as a relation over sets of drawing coordinates (every "
+          "protocluster/subregion drawn exactly once or as two linked halves split at the origin; candidates by the documented "
+          "sandwich; same-row areas disjoint in their extents; cores inside extents and equal to the protocluster's core; announced "
+          "range = region, continued past L over the origin; every extent and gene inside it; drawing order = genome order) with a "
+          "constructive sorted first-fit reference. TLC (Layout_MC) enumerates small lines/rings with 0-2 protoclusters (independent "
+          "left/right neighbourhoods), 0-1 subregion and genes incl. over the origin, forms candidates/regions with the "
+          "Candidates/RecordSM model, shows the relation satisfiable and the reference row-optimal on every region, shows a repaired "
+          "implementation-shaped model of adjust_cross_origin_area satisfying it, and four negative controls violating it. Every "
+          "enumerated record plus seeded random records of 30-150 bases is built as a real Record; build_area_rows and "
+          "js.convert_regions are called for every region and Layout_Trace (TLC) decides each observed layout."),
+    design="6/C19", technique="TLA+ relation + constructive reference + implementation-shaped companion (TLC model checking), enumerated-universe replay and random records with TLC trace validation",
+    note=TRUSTED + "The announced start may be 0- or 1-based; row count is free (only non-overlap is required); region kinds reached "
+         "are enforced per run (exit 2 if one is missing)."),
 }
 CHECKS_END = None
 NOT_BUILT = "not built yet (work in progress, see DESIGN.md section 10 build order)"
